@@ -36,6 +36,9 @@ def main(argv):
         if prop in ("C05", "C12", "C14"):
             from . import checks_serial
             return checks_serial.run(prop, tier)
+        if prop == "C18":
+            from . import checks_lock
+            return checks_lock.run(prop, tier)
         print(f"unknown property {prop}")
         return 2
     except Exception as e:  # noqa: BLE001
